@@ -95,7 +95,7 @@ def root_state(case):
     n = len(case["labels"])
     cols = ["rid", "f2"] + (["y"] if case["target"] else [])
     return {"rows": [[case["labels"][i], i, case["splits"][i]] for i in range(n)], "mat": False,
-            "cols": cols, "target": "y" if case["target"] else None, "has_split": True}
+            "cols": cols, "dfcols": cols + ["s"], "target": "y" if case["target"] else None, "has_split": True}
 
 
 def ref_apply(st, step, perm=None):
@@ -150,7 +150,7 @@ def ref_apply(st, step, perm=None):
             return [("err", "unknown column")]
         if st["target"] is not None and st["target"] not in cols:
             cols = cols + [st["target"]]
-        return [("node", dict(st, cols=cols, has_split=False))]
+        return [("node", dict(st, cols=cols, dfcols=list(cols), has_split=False))]
     raise ValueError(o)
 
 
@@ -323,9 +323,11 @@ def gen_split_case(rng, n=None, tr=None, vr=None, it=None):
             vr = 1.0 - tr                       # exactly filling (when the float sum says so)
             if rng.chance(0.3):
                 vr = round(1 - tr, 2)
-        elif r < 0.5:
+        elif it and r < 0.55 and any(0 < v and tr + v < 1 for v in RATIOS):
+            vr = rng.pick([v for v in RATIOS if 0 < v and tr + v < 1])
+        elif r < 0.65:
             vr = rng.pick(RATIOS)
-        elif r < 0.75:
+        elif r < 0.8:
             m = rng.randint(2, 12)
             vr = rng.randint(1, m - 1) / m
         else:
@@ -595,9 +597,9 @@ def cmp_node(snap, want, kind, idx):
                     what=f"step {idx} {kind}: TensorFrame rows {snap['tf']} are not the DataFrame rows {snap['rid']}",
                     expected=snap["rid"], observed=snap["tf"])
     if kind.startswith("col_select") or kind == "mat":
-        if snap["cols"] != want["cols"] or snap["stypes"] != want["cols"]:
+        if snap["cols"] != want["dfcols"] or snap["stypes"] != want["cols"]:
             return dict(key=f"wrong-cols:{kind}", what=f"step {idx} {kind}: columns df={snap['cols']} "
-                        f"col_to_stype={snap['stypes']}, expected {want['cols']}",
+                        f"col_to_stype={snap['stypes']}, expected {want['dfcols']} / {want['cols']}",
                         expected=want["cols"], observed=[snap["cols"], snap["stypes"]])
         if want["target"] is not None and (want["target"] not in snap["cols"] or snap["target"] != want["target"]):
             return dict(key="target-dropped", what=f"step {idx} {kind} lost the target column")
@@ -955,6 +957,6 @@ def coq_term_gen(case, obs):
     exp = C.copt(a["arr"], lambda l: C.clist(l, C.cz)) if a["ok"] else "None"
     if a["ok"] and (a["ndim"] != 1):
         return None
-    perm = C.clist(obs["perm"], C.cnat)
-    return (f"split_case {perm} {C.cnat(case['n'])} {C.cz(case['seed'])} {coq_float(case['tr'])} "
+    perm = C.clist(obs["perm"], C.cz)          # Z literals: unary nat literals of size 1000 are slow to parse
+    return (f"split_case {perm} {C.cz(case['n'])} {C.cz(case['seed'])} {coq_float(case['tr'])} "
             f"{coq_float(case['vr'])} {C.cbool(case['include_test'])} {exp}")
